@@ -736,7 +736,7 @@ impl<'a> Runner<'a> {
 
     fn should_stop(&self) -> bool {
         let r = self.rep();
-        r.violation_count >= 8 || r.inconclusive.len() >= 3
+        r.violation_count >= 8 || r.inconclusive.len() >= 3 || SPIN_SEEN.load(std::sync::atomic::Ordering::SeqCst)
     }
 
     fn run(&mut self, sc: &Scenario, mode: &str) {
@@ -1130,7 +1130,119 @@ fn mode_compose(r: &mut Runner) {
         let _ = await_no_library_thread();
         set_current(None);
     }
+    // a queuing sink wrapped DIRECTLY in a queuing sink (the wrapped sink's type is the library's own): the inner queue
+    // is small and its wrapped sink blocked, so it refuses most metrics - to the outer queue that is a failing wrapped
+    // sink like any other: its own emit keeps answering Ok (unbounded), and its handler hears of every refusal, once, on
+    // the outer queue's thread. In the second variant the handler also calls flush() on a clone of its own queue (a
+    // handler may use the sink it belongs to; the flush must come back).
+    for flushing_handler in [false, true] {
+        if SPIN_SEEN.load(std::sync::atomic::Ordering::SeqCst) {
+            return;
+        }
+        let sh = Shared::new(true);
+        set_current(Some(sh.clone()));
+        let inner = QueuingMetricSink::with_capacity(GatedSink { sh: sh.clone() }, 2);
+        let seen: Arc<M<Vec<(String, u32, bool)>>> = Arc::new(M::new(Vec::new()));
+        let slot: Arc<M<Option<QueuingMetricSink>>> = Arc::new(M::new(None));
+        let (seen2, slot2) = (std::panic::AssertUnwindSafe(seen.clone()), std::panic::AssertUnwindSafe(slot.clone()));
+        let outer = QueuingMetricSink::builder()
+            .with_error_handler(move |e: std::io::Error| {
+                let tid = procmon::gettid();
+                if flushing_handler {
+                    let q = slot2.lock().unwrap_or_else(|e| e.into_inner()).clone();
+                    if let Some(q) = q {
+                        let _ = q.flush();
+                    }
+                }
+                seen2.lock().unwrap_or_else(|e| e.into_inner()).push((e.to_string(), tid, procmon::is_harness_tid(tid)));
+            })
+            .build(inner.clone());
+        *slot.lock().unwrap() = Some(outer.clone());
+        let n = 30usize;
+        let mut outer_refused = 0usize;
+        for k in 0..n {
+            if panics::guard(|| outer.emit(&metric_text(&format!("nest{}.n{}", r.sid, k), &Out::Ok, 0))).map(|x| x.is_err()).unwrap_or(true) {
+                outer_refused += 1;
+            }
+        }
+        // the inner queue takes 2 or 3 (its capacity, plus the one its thread holds in the closed gate if it got there in
+        // time) and refuses the others: at rest, handler calls + metrics the inner queue accepted = n
+        let t0 = std::time::Instant::now();
+        let mut spin_verdict: Option<String> = None;
+        let mut cpu0: std::collections::BTreeMap<u32, u64> = std::collections::BTreeMap::new();
+        let mut calls_at_base = 0usize;
+        while seen.lock().unwrap_or_else(|e| e.into_inner()).len() + (inner.submitted() as usize) < n && outer_refused == 0 {
+            std::thread::sleep(std::time::Duration::from_millis(5));
+            // a library thread that burns 3 s of CPU time without a single new handler call spins
+            let now_calls = seen.lock().unwrap_or_else(|e| e.into_inner()).len();
+            if now_calls != calls_at_base {
+                calls_at_base = now_calls;
+                cpu0.clear();
+            }
+            for t in live_library_tids() {
+                if let Some(c) = procmon::task_cpu_ticks(t) {
+                    let base = *cpu0.entry(t).or_insert(c);
+                    if c.saturating_sub(base) >= 300 {
+                        spin_verdict = Some(format!("library thread {} consumed {} ms of CPU time without another handler call", t, (c - base) * 10));
+                        SPIN_SEEN.store(true, std::sync::atomic::Ordering::SeqCst);
+                    }
+                }
+            }
+            if spin_verdict.is_some() || t0.elapsed().as_secs() > 100 {
+                break;
+            }
+        }
+        // (give a surplus call the time to show up)
+        std::thread::sleep(std::time::Duration::from_millis(20));
+        let calls = seen.lock().unwrap_or_else(|e| e.into_inner()).clone();
+        let want_handler = n - inner.submitted() as usize;
+        let label = format!("compose queue wrapped directly in a queue, inner capacity 2 blocked{}", if flushing_handler { ", handler flushes its own queue" } else { "" });
+        {
+            let mut rep = r.rep();
+            rep.eval();
+            rep.obs("refusals_of_an_inner_queue_reported_to_the_outer_queues_handler", calls.len() as u64);
+            rep.distinct(&format!("compose|direct|{}", flushing_handler));
+            let mut late = false;
+            let mut report = |props: &[&str], rule: &str, class: &str, detail: String| {
+                for p in props {
+                    if *p == r.prop {
+                        rep.violation(Violation { property: p.to_string(), rule: rule.into(), class: class.into(), detail: format!("[{}] {}", label, detail), replay_args: r.args.to_vec_with(&[]), trace: Json::Null });
+                    }
+                }
+            };
+            if outer_refused > 0 {
+                report(&["C10"], "R5", "false-refusal", format!("{} of {} emits on the unbounded outer queue were refused", outer_refused, n));
+                report(&["C16"], "R8", "handler-never-called", format!("the wrapped (inner) queue refused metrics, the outer queue's handler was called {} times and {} refusals came back to the caller instead", calls.len(), outer_refused));
+            } else if let Some(sv) = &spin_verdict {
+                report(&["C16", "C08", "C10"], "R8", "handler-not-called", format!("{} of {} failures reported, then: {}", calls.len(), want_handler, sv));
+            } else if calls.len() < want_handler {
+                late = true;
+            } else if calls.len() > want_handler {
+                report(&["C16"], "R8", "handler-called-twice", format!("{} handler calls for {} failures of the wrapped sink", calls.len(), want_handler));
+            }
+            if let Some((m, t, _)) = calls.iter().find(|(_, _, on_harness)| *on_harness) {
+                report(&["C16"], "R8", "handler-on-caller-thread", format!("handler ran on caller thread {} for {:?}", t, m));
+            }
+            if late {
+                rep.inconclusive(format!("{}: {} of {} handler calls after 100 s", label, calls.len(), want_handler));
+            }
+        }
+        *slot.lock().unwrap() = None;
+        sh.open_all();
+        drop(outer);
+        drop(inner);
+        if spin_verdict.is_none() {
+            let _ = await_log(&sh, |st| st.log.iter().any(|e| matches!(e, Ev::SinkDrop { .. })));
+            let _ = await_no_library_thread();
+        } else {
+            adopt_zombies();
+        }
+        set_current(None);
+    }
     for variant in 0..6u64 {
+        if SPIN_SEEN.load(std::sync::atomic::Ordering::SeqCst) {
+            return;
+        }
         let n = [40usize, 300, 120, 40, 300, 120][variant as usize];
         let inner_cap = if variant % 3 == 1 { Some(4096usize) } else { None };
         let through_handler = variant >= 3;
